@@ -60,7 +60,7 @@ import nfc.tag
 import nfc.tag.tt3
 
 from vlib import p2p, ref_llcp, simdev, vsched
-from vlib.engine import Leg, Violation, unexpected, twin_O, twin_env
+from vlib.engine import Leg, Violation, unexpected, app_stack, twin_O, twin_env
 from props import c11
 
 PROPERTY = "C07"
@@ -83,7 +83,8 @@ def setup():
 def run_pdu(case, ctx):
     b = bytes(case)
     try:
-        p = nfc.llcp.pdu.decode(b)
+        with app_stack():
+            p = nfc.llcp.pdu.decode(b)
     except nfc.llcp.pdu.DecodeError:
         ctx.label("DecodeError")
         return
